@@ -13,7 +13,8 @@ Wire format of a value `V` (prefix notation, blank-separated tokens):
 * `biv <V>`                  `Bivariate.from_dict` → `ok <class> <to_dict V>` | `err`
 * `multi <V>`                `Multivariate.from_dict` → `ok <gauss|vine> <fresh:0|1> <to_dict V>` | `err`
                              (`fresh` = 1 iff no parent object of any edge is an edge object of a tree)
-* `trip <u|b|m> <n> <V>`     `n` further round trips after `from_dict` → `ok <to_dict V>` | `err`
+* `gauss <V>` / `vine <V>`   `GaussianMultivariate.from_dict` / `VineCopula.from_dict`, same reply
+* `trip <u|b|g|v|m> <n> <V>`     `n` further round trips after `from_dict` → `ok <to_dict V>` | `err`
 * `keys <biv|gauss|vinehead|vine|treehead|tree|edge>` → `ok <key>*` (generated tables)
 * `fam <qualified name>`     → `ok <name> <fit keys ,> <fit_constant keys ,> <usesModel> <rebuilds> <model opts ,> <ctor opts ,> <constCheck>` | `err`
 * `fams`                     → `ok <qualified name>*`
@@ -126,7 +127,8 @@ end SerialIO
 open SerialIO
 
 def serialTables : Tables :=
-  { fams := Gen.Serial.families, biv := Gen.Serial.bivTable, upper := String.toUpper }
+  { fams := Gen.Serial.families, biv := Gen.Serial.bivTable, upper := String.toUpper,
+    gaussNoArg := Gen.Serial.gaussCtorNoArgs, vineNoArg := Gen.Serial.vineCtorNoArgs }
 
 def commaList (xs : List String) : String := if xs.isEmpty then "-" else ",".intercalate xs
 
@@ -139,44 +141,12 @@ def showModelDict (m : Model) : String :=
   | some d => SerialIO.render d
   | none => "-"
 
-def serial (ws : List String) : String :=
+def serialRest (ws : List String) : String :=
   match ws with
-  | "json" :: rest =>
-      match parseWhole rest with
-      | some v =>
-          match jsonThrough v with
-          | some v' => "ok " ++ SerialIO.render v'
-          | none => "err"
-      | none => "bad-value"
-  | "uni" :: rest =>
-      match parseWhole rest with
-      | some v =>
-          match uniFromDict serialTables.fams v with
-          | some u =>
-              let c := match u.constant with
-                | some c => "C " ++ SerialIO.render c
-                | none => "- N"
-              s!"ok {u.fam.name} {c} {showModelDict (.uni u)}"
-          | none => "err"
-      | none => "bad-value"
-  | "biv" :: rest =>
-      match parseWhole rest with
-      | some v =>
-          match bivFromDict serialTables.upper serialTables.biv v with
-          | some b => s!"ok {b.cls} {showModelDict (.biv b)}"
-          | none => "err"
-      | none => "bad-value"
-  | "multi" :: rest =>
-      match parseWhole rest with
-      | some v =>
-          match multivariateFromDict serialTables v with
-          | some (.gauss g) => s!"ok gauss 1 {showModelDict (.gauss g)}"
-          | some (.vine s) => s!"ok vine {if freshParents s then 1 else 0} {showModelDict (.vine s)}"
-          | _ => "err"
-      | none => "bad-value"
   | "trip" :: e :: n :: rest =>
       match parseWhole rest, n.toNat?, (match e with
           | "u" => some Entry.univariate | "b" => some Entry.bivariate | "m" => some Entry.multivariate
+          | "g" => some Entry.gaussian | "v" => some Entry.vine
           | _ => none) with
       | some v, some n, some e =>
           match (fromDict serialTables e v).bind (tripN serialTables n) with
@@ -210,5 +180,46 @@ def serial (ws : List String) : String :=
           "ok " ++ SerialIO.render (.dict (fitConstantParams F c n fit))
       | _, _, _, _ => "bad-value"
   | _ => "bad-op"
+
+
+def serial (ws : List String) : String :=
+  match ws with
+  | "json" :: rest =>
+      match parseWhole rest with
+      | some v =>
+          match jsonThrough v with
+          | some v' => "ok " ++ SerialIO.render v'
+          | none => "err"
+      | none => "bad-value"
+  | "uni" :: rest =>
+      match parseWhole rest with
+      | some v =>
+          match uniFromDict serialTables.fams v with
+          | some u =>
+              let c := match u.constant with
+                | some c => "C " ++ SerialIO.render c
+                | none => "- N"
+              s!"ok {u.fam.name} {c} {showModelDict (.uni u)}"
+          | none => "err"
+      | none => "bad-value"
+  | "biv" :: rest =>
+      match parseWhole rest with
+      | some v =>
+          match bivFromDict serialTables.upper serialTables.biv v with
+          | some b => s!"ok {b.cls} {showModelDict (.biv b)}"
+          | none => "err"
+      | none => "bad-value"
+  | which :: rest =>
+    if which == "multi" || which == "gauss" || which == "vine" then
+      match parseWhole rest with
+      | some v =>
+          let e := if which == "multi" then Entry.multivariate else if which == "gauss" then Entry.gaussian else Entry.vine
+          match fromDict serialTables e v with
+          | some (.gauss g) => s!"ok gauss 1 {showModelDict (.gauss g)}"
+          | some (.vine s) => s!"ok vine {if freshParents s then 1 else 0} {showModelDict (.vine s)}"
+          | _ => "err"
+      | none => "bad-value"
+    else serialRest ws
+  | [] => "bad-op"
 
 end CopVerif.Driver
